@@ -1,37 +1,57 @@
 #!/usr/bin/env python3
-"""rs2sm.py <group.json-entry>: translate small Rust state-machine functions (enum values,
-`match`, `?`, `&mut self`) to Gallina over the universal value type of coq/Lib/RsVal.v.
+"""rs2sm.py <group as JSON>: translate small Rust state-machine functions (enum values, `match`,
+`if let`, `?`, early `return`, `&mut self`, effects on a parameter) to Gallina over the universal
+value type of coq/Lib/RsVal.v.
 
 Companion of rs2v.py (which covers arithmetic / decision functions over numbers).  The functions
-translated here are REGENERATED from the source on every run (coq/Gen/SrcCollect.v) and proved
-equal to the hand-written model (coq/Proofs/CollectorSrc.v).
+translated here are REGENERATED from the source on every run (coq/Gen/SrcCollect.v,
+coq/Gen/SrcHandshake.v) and proved equal to the hand-written models (coq/Proofs/CollectorSrc.v,
+coq/Proofs/HandshakeSrc.v).
 
 Subset accepted (anything else makes the translation fail, the generated file then does not
 compile and the proof obligation breaks):
 
-  fn f([&mut] self | mut self | self, [mut] x: T, ...) -> R { stmts; tail }
-  statements   let [mut] x [: T] = e;      self.f = e;      x.append(&mut y);
-  tail         match s { pat => tail | { stmts; tail } , ... }
-               if a == b { tail } else { tail }       a pure expression
+  fn f([&mut] self | mut self | self, [mut] x: T, ...) -> R { stmts; [tail] }
+  statements   let [mut] pat [: T] = e;      let pat = e?;
+               self.f = e;      *self = e;      x.append(&mut y);
+               obj.m(args);                     an EFFECT on a parameter named in the group's "effects"
+               if let pat = e { block }         (no else)
+               match s { pat => block | tail, ... }   followed by more statements
+               return e;      return self.f(args);   (f the function itself: recursion, on fuel)
+               name!(...);                      logging / assertion macros: skipped
+  tail         match s { pat => tail | block , ... }
+               if a == b { block } else { block }       a pure expression
   scrutinee s  e | e? | self.f.take()
-  patterns     _  [mut] x  None  Some(p)  Path::Ctor(p, ..)  Path::Ctor  (p, q)
+  patterns     _  [mut] x  0  None  Some(p)  Path::Ctor(p, ..)  Path::Ctor  (p, q)  p | q (no bindings)
   expressions  integer literals, (), variables, x.f, self.f, e as T (casts are dropped: see below),
-               &e, &mut e, (a, b), Ctor(args), Path::Ctor(args), Vec::new(), Vec::with_capacity(e),
-               std::cmp::min(a, b), XSnafu.fail(), e.len(), a.cmp(&b), T::new(args) (the associated
-               function of the type parameter: the section variable t_new), recv.m(args) for the methods named in the group's "calls" table
-               (a call of another translated function, receiver first), constants of the file
+               &e, &mut e, *e, (a, b), Ctor(args), Path::Ctor(args), Path {}, Vec::new(),
+               Vec::with_capacity(e), std::cmp::min(a, b), XSnafu.fail(), e.len(), a.cmp(&b), e.clone(),
+               T::new(args) (the associated function of the type parameter: the section variable
+               t_new), recv.m(args) for the methods named in the group's "calls" table (a call of
+               another translated function, receiver first), any other path::function(args) or
+               recv.method(args): an EXTERNAL function (the section variable ext, applied to the
+               name and the arguments, receiver first), constants of the file
 
 Semantics given to it (the trusted part of this translator):
   * values are `val` (RsVal.v): unsigned integers VN (no arithmetic occurs in the functions
-    translated), byte vectors VBytes, enum values / tuples VC "Path::Ctor" [args], structs read by
-    field VR, everything else opaque;
+    translated), byte vectors VBytes, enum values / tuples / unit VC "Path::Ctor" [args], structs
+    read by field VR, everything else opaque;
   * `match` tries its arms in order; a value no arm matches (ill-typed, cannot happen) is VStuck;
-  * a function taking `&mut self` returns the pair (self afterwards, value); `self.f = e` and
-    `self.f.take()` (returns the field, leaves None) rebind self; `x.append(&mut y)` rebinds x to
-    the concatenation; `let` shadows;
-  * `e?` in a scrutinee: Err(x) is returned at once (with self as it is then), Ok(v) continues with v;
+  * a function taking `&mut self` and / or effect parameters returns the tuple (self afterwards,
+    effect objects afterwards ..., value); `self.f = e`, `*self = e` and `self.f.take()` (returns
+    the field, leaves None) rebind self; `x.append(&mut y)` rebinds x to the concatenation; an
+    effect call `obj.m(args)` appends (m, args) to the object's log (v_log); `let` shadows;
+    variables bound by a pattern keep the value they were bound to (they are clones or are not
+    used after an assignment to what they borrow from - checked by rustc, not here);
+  * `e?`: Err(x) is returned at once (with self and the effect objects as they are then), Ok(v)
+    continues with v; `return e` ends the function with e;
+  * external functions and T::new are uninterpreted: the theorems about the translation state
+    what they assume of them as hypotheses;
+  * a self-recursive `return self.f(args)` is a call on one unit less of fuel (the theorems
+    state how much fuel is enough);
   * `as usize` / `as u64` casts are dropped (u64 -> usize is the identity on the 64-bit targets the
-    crate is built for here); Vec::with_capacity(n) is the empty vector (capacity is not observable).
+    crate is built for here); Vec::with_capacity(n) is the empty vector (capacity is not
+    observable); `.clone()` and `&` / `*` are the identity on values.
 """
 import json, re, sys
 sys.path.insert(0, __import__("os").path.dirname(__file__))
@@ -42,9 +62,12 @@ def cstr(s):
     return '"%s"' % s
 
 
+UNIT = '(VC "()" [])'
+
+
 class Parser:
-    def __init__(self, toks):
-        self.t, self.i = toks, 0
+    def __init__(self, toks, fname):
+        self.t, self.i, self.fname = toks, 0, fname
 
     def peek(self, k=0):
         return self.t[self.i + k] if self.i + k < len(self.t) else None
@@ -71,6 +94,16 @@ class Parser:
             elif tok == ">>":
                 depth -= 2
             self.i += 1
+
+    def skip_parens(self):
+        self.eat("(")
+        depth = 1
+        while depth:
+            tok = self.eat()
+            if tok == "(":
+                depth += 1
+            elif tok == ")":
+                depth -= 1
 
     def fn(self):
         while self.peek() != "fn":
@@ -109,23 +142,46 @@ class Parser:
         self.eat("{")
         stmts = []
         while True:
-            if self.peek() == "}":
-                raise Fail("block without a tail expression")
-            if self.peek() == "let":
+            tok = self.peek()
+            if tok == "}":
                 self.eat()
-                if self.peek() == "mut":
-                    self.eat()
-                x = self.eat()
+                return ("block", stmts, None)
+            if tok == "let":
+                self.eat()
+                pat = self.pattern()
                 if self.peek() == ":":
                     self.eat()
                     self.skip_type(["="])
                 self.eat("=")
                 e = self.expr()
+                tried = False
+                if self.peek() == "?":
+                    self.eat()
+                    tried = True
                 self.eat(";")
-                stmts.append(("let", x, e))
+                stmts.append(("let", pat, e, tried))
+                continue
+            if tok == "return":
+                self.eat()
+                e = self.expr()
+                self.eat(";")
+                stmts.append(("return", e))
+                continue
+            # name!(...);
+            if self.peek(1) == "!" and self.peek(2) == "(":
+                self.eat(); self.eat()
+                self.skip_parens()
+                self.eat(";")
+                continue
+            # *self = e;
+            if tok == "*" and self.peek(1) == "self" and self.peek(2) == "=":
+                self.eat(); self.eat(); self.eat()
+                e = self.expr()
+                self.eat(";")
+                stmts.append(("setself", e))
                 continue
             # self.f = e;
-            if self.peek() == "self" and self.peek(1) == "." and self.peek(3) == "=":
+            if tok == "self" and self.peek(1) == "." and self.peek(3) == "=":
                 self.eat(); self.eat(); f = self.eat(); self.eat("=")
                 e = self.expr()
                 self.eat(";")
@@ -139,28 +195,57 @@ class Parser:
                 self.eat(")"); self.eat(";")
                 stmts.append(("append", x, y))
                 continue
-            tail = self.tail()
+            if tok == "if" and self.peek(1) == "let":
+                self.eat(); self.eat()
+                pat = self.pattern()
+                self.eat("=")
+                e = self.postfix()
+                body = self.block()
+                if self.peek() == "else":
+                    raise Fail("if let with else")
+                stmts.append(("iflet", pat, e, body))
+                continue
+            if tok == "match":
+                m = self.match()
+                if self.peek() == "}":
+                    self.eat()
+                    return ("block", stmts, m)
+                stmts.append(("matchstmt", m))
+                continue
+            if tok == "if":
+                t = self.tail()
+                self.eat("}")
+                return ("block", stmts, t)
+            # an expression: an effect statement (followed by `;`) or the tail
+            e = self.expr()
+            if self.peek() == ";":
+                self.eat()
+                stmts.append(("exprstmt", e))
+                continue
             self.eat("}")
-            return ("block", stmts, tail)
+            return ("block", stmts, ("value", e))
+
+    def match(self):
+        self.eat("match")
+        scrut = self.scrutinee()
+        self.eat("{")
+        arms = []
+        while self.peek() != "}":
+            pat = self.pattern()
+            self.eat("=>")
+            if self.peek() == "{":
+                body = self.block()
+            else:
+                body = ("block", [], self.tail())
+            arms.append((pat, body))
+            if self.peek() == ",":
+                self.eat()
+        self.eat("}")
+        return ("match", scrut, arms)
 
     def tail(self):
         if self.peek() == "match":
-            self.eat()
-            scrut = self.scrutinee()
-            self.eat("{")
-            arms = []
-            while self.peek() != "}":
-                pat = self.pattern()
-                self.eat("=>")
-                if self.peek() == "{":
-                    body = self.block()
-                else:
-                    body = ("block", [], self.tail())
-                arms.append((pat, body))
-                if self.peek() == ",":
-                    self.eat()
-            self.eat("}")
-            return ("match", scrut, arms)
+            return self.match()
         if self.peek() == "if":
             self.eat()
             a = self.postfix()
@@ -177,18 +262,30 @@ class Parser:
         if self.peek() == "self" and self.peek(1) == "." and self.peek(3) == "." and self.peek(4) == "take":
             self.eat(); self.eat(); f = self.eat(); self.eat("."); self.eat("take"); self.eat("("); self.eat(")")
             return ("take", f)
-        e = self.postfix(no_struct=True)
+        e = self.postfix()
         if self.peek() == "?":
             self.eat()
             return ("try", e)
         return ("plain", e)
 
     def pattern(self):
+        p = self.pattern1()
+        if self.peek() == "|":
+            alts = [p]
+            while self.peek() == "|":
+                self.eat()
+                alts.append(self.pattern1())
+            return ("or", alts)
+        return p
+
+    def pattern1(self):
         if self.peek() == "mut":
             self.eat()
         if self.peek() == "_":
             self.eat()
             return ("wild",)
+        if re.match(r"\d", self.peek()):
+            return ("num", int(self.eat().replace("_", "")))
         if self.peek() == "(":
             self.eat()
             ps = []
@@ -234,7 +331,7 @@ class Parser:
         self.eat(")")
         return out
 
-    def postfix(self, no_struct=False):
+    def postfix(self):
         e = self.atom()
         while True:
             if self.peek() == "." and self.peek(2) == "(":
@@ -259,6 +356,9 @@ class Parser:
             if self.peek() == "mut":
                 self.eat()
             return self.postfix()
+        if tok == "*":
+            self.eat()
+            return self.postfix()
         if tok == "(":
             self.eat()
             if self.peek() == ")":
@@ -277,6 +377,9 @@ class Parser:
         p = self.path()
         if self.peek() == "(":
             return ("call", p, self.args())
+        if self.peek() == "{" and self.peek(1) == "}" and p[0].isupper():
+            self.eat(); self.eat()
+            return ("ctor", p, [])
         if "::" in p or p[0].isupper():
             return ("ctor", p, [])
         return ("var", p)
@@ -296,9 +399,12 @@ def const_value(src, name):
 
 
 class Gen:
-    def __init__(self, src, calls, mutself):
-        self.src, self.calls, self.mutself = src, calls, mutself
+    def __init__(self, src, calls, threaded, fname, cname):
+        # threaded: the names whose final value is returned beside the result (self if &mut, effect objects)
+        self.src, self.calls, self.threaded, self.fname, self.cname = src, calls, threaded, fname, cname
+        self.effects = [t for t in threaded if t != "self"]
         self.n = 0
+        self.recursive = False
 
     def fresh(self, base):
         self.n += 1
@@ -311,8 +417,6 @@ class Gen:
         if k == "var":
             if x[1] in env:
                 return env[x[1]]
-            if x[1].isupper():
-                return "(VN %d)" % const_value(self.src, x[1])
             raise Fail("unbound variable %s" % x[1])
         if k == "field":
             return "(v_field %s %s)" % (cstr(x[2]), self.e(x[1], env))
@@ -334,87 +438,145 @@ class Gen:
             if p == "T::new":
                 # the associated function of the type parameter: what it builds depends on T
                 return "(t_new [%s])" % "; ".join(self.e(a, env) for a in args)
+            last = p.split("::")[-1]
+            if last[0].islower():
+                return "(ext %s [%s])" % (cstr(p), "; ".join(self.e(a, env) for a in args))
             return "(VC %s [%s])" % (cstr(p), "; ".join(self.e(a, env) for a in args))
         if k == "method":
             recv, m, args = x[1], x[2], x[3]
             if m == "fail" and recv[0] == "ctor" and recv[1].endswith("Snafu") and not args:
                 return "(VC \"Err\" [VC %s []])" % cstr(recv[1][:-5])
+            if recv[0] == "var" and recv[1] in self.effects:
+                raise Fail("effect call %s.%s used as a value" % (recv[1], m))
+            if m == "clone" and not args:
+                return self.e(recv, env)
             if m == "len" and not args:
                 return "(v_len %s)" % self.e(recv, env)
             if m == "cmp" and len(args) == 1:
                 return "(v_cmp %s %s)" % (self.e(recv, env), self.e(args[0], env))
             if m in self.calls:
                 return "(%s %s)" % (self.calls[m], " ".join([self.e(recv, env)] + [self.e(a, env) for a in args]))
-            raise Fail("method %s" % m)
+            return "(ext %s [%s])" % (cstr(m), "; ".join([self.e(recv, env)] + [self.e(a, env) for a in args]))
         raise Fail("expression %r" % (x,))
 
     def ret(self, v, env):
-        return "(%s, %s)" % (env["self"], v) if self.mutself else v
+        parts = [env[t] for t in self.threaded] + [v]
+        return "(%s)" % ", ".join(parts) if len(parts) > 1 else v
 
     def stuck(self, env):
         return self.ret("VStuck", env)
 
-    def block(self, b, env):
-        _, stmts, tail = b
-        env = dict(env)
-        out = ""
-        for s in stmts:
-            if s[0] == "let":
-                v = self.e(s[2], env)
-                n = self.fresh(s[1])
-                out += "let %s := %s in\n" % (n, v)
-                env[s[1]] = n
-            elif s[0] == "setfield":
-                if not self.mutself:
-                    raise Fail("assignment to self.%s in a function that does not take &mut self" % s[1])
-                v = self.e(s[2], env)
-                n = self.fresh("self")
-                out += "let %s := v_set %s %s %s in\n" % (n, cstr(s[1]), v, env["self"])
-                env["self"] = n
-            elif s[0] == "append":
-                n = self.fresh(s[1])
-                out += "let %s := v_append %s %s in\n" % (n, env[s[1]], env[s[2]])
-                env[s[1]] = n
-        return out + self.tail(tail, env)
+    def block(self, b, env, k):
+        return self.stmts(b[1], b[2], dict(env), k)
 
-    def tail(self, t, env):
-        if t[0] == "value":
-            return self.ret(self.e(t[1], env), env)
-        if t[0] == "ifeq":
-            return "(if v_eqb %s %s then\n%s\nelse\n%s)" % (self.e(t[1], env), self.e(t[2], env), self.block(t[3], env), self.block(t[4], env))
-        if t[0] == "match":
+    def stmts(self, ss, tail, env, k):
+        if not ss:
+            if tail is None:
+                return k(env, UNIT)
+            return self.tail(tail, env, k)
+        s, rest = ss[0], ss[1:]
+        cont = lambda env2: self.stmts(rest, tail, env2, k)
+        kind = s[0]
+        if kind == "let":
+            _, pat, ex, tried = s
+            v = self.fresh("v")
+            code = "let %s := %s in\n" % (v, self.e(ex, env))
+            if tried:
+                okv, err = self.fresh("okval"), self.fresh("err")
+                return code + "match %s with\n| VC \"Err\" [%s] => %s\n| VC \"Ok\" [%s] =>\n%s\n| _ => %s\nend" % (
+                    v, err, self.ret("(VC \"Err\" [%s])" % err, env), okv,
+                    self.pat(pat, okv, env, cont, self.stuck(env)), self.stuck(env))
+            return code + self.pat(pat, v, env, cont, self.stuck(env))
+        if kind == "return":
+            ex = s[1]
+            if ex[0] == "method" and ex[1] == ("var", "self") and ex[2] == self.fname:
+                # recursion: the callee returns the same tuple
+                self.recursive = True
+                args = ex[3]
+                names = [a[1] if a[0] == "var" else None for a in args]
+                return "(%s fuel_ %s)" % (self.cname, " ".join([env["self"]] + [self.e(a, env) for a in args]))
+            return self.ret(self.e(ex, env), env)
+        if kind == "setself":
+            if "self" not in self.threaded:
+                raise Fail("assignment to *self in a function that does not take &mut self")
+            n = self.fresh("self")
             env = dict(env)
-            pre = ""
-            sc = t[1]
-            if sc[0] == "take":
-                if not self.mutself:
-                    raise Fail("take() on a field of self in a function that does not take &mut self")
-                v = self.fresh("taken")
-                n = self.fresh("self")
-                pre = "let %s := v_field %s %s in\nlet %s := v_set %s (VC \"None\" []) %s in\n" % (v, cstr(sc[1]), env["self"], n, cstr(sc[1]), env["self"])
-                env["self"] = n
-                return "(" + pre + self.arms(v, t[2], env) + ")"
-            if sc[0] == "try":
-                r = self.fresh("tried")
-                v = self.fresh("okval")
-                ex = self.fresh("err")
-                pre = "let %s := %s in\n" % (r, self.e(sc[1], env))
-                return ("(" + pre + "match %s with\n| VC \"Err\" [%s] => %s\n| VC \"Ok\" [%s] =>\n%s\n| _ => %s\nend)" % (
-                    r, ex, self.ret("(VC \"Err\" [%s])" % ex, env), v, self.arms(v, t[2], env), self.stuck(env)))
-            v = self.fresh("scrut")
-            pre = "let %s := %s in\n" % (v, self.e(sc[1], env))
-            return "(" + pre + self.arms(v, t[2], env) + ")"
+            code = "let %s := %s in\n" % (n, self.e(s[1], env))
+            env["self"] = n
+            return code + cont(env)
+        if kind == "setfield":
+            if "self" not in self.threaded:
+                raise Fail("assignment to self.%s in a function that does not take &mut self" % s[1])
+            n = self.fresh("self")
+            env = dict(env)
+            code = "let %s := v_set %s %s %s in\n" % (n, cstr(s[1]), self.e(s[2], env), env["self"])
+            env["self"] = n
+            return code + cont(env)
+        if kind == "append":
+            n = self.fresh(s[1])
+            env = dict(env)
+            code = "let %s := v_append %s %s in\n" % (n, env[s[1]], env[s[2]])
+            env[s[1]] = n
+            return code + cont(env)
+        if kind == "exprstmt":
+            ex = s[1]
+            if ex[0] == "method" and ex[1][0] == "var" and ex[1][1] in self.effects:
+                obj = ex[1][1]
+                n = self.fresh(obj)
+                env = dict(env)
+                code = "let %s := v_log %s [%s] %s in\n" % (n, cstr(ex[2]), "; ".join(self.e(a, env) for a in ex[3]), env[obj])
+                env[obj] = n
+                return code + cont(env)
+            raise Fail("expression statement %r" % (ex,))
+        if kind == "iflet":
+            _, pat, ex, body = s
+            v, r = self.fresh("v"), self.fresh("rest")
+            code = "let %s := %s in\nlet %s := fun _ : unit =>\n%s in\n" % (v, self.e(ex, env), r, cont(env))
+            return code + self.pat(pat, v, env, lambda env2: self.block(body, env2, lambda env3, _v: cont(env3)), "%s tt" % r)
+        if kind == "matchstmt":
+            return self.match(s[1], env, lambda env2, _v: cont(env2))
+        raise Fail("statement %r" % (s,))
+
+    def tail(self, t, env, k):
+        if t[0] == "value":
+            return k(env, self.e(t[1], env))
+        if t[0] == "ifeq":
+            return "(if v_eqb %s %s then\n%s\nelse\n%s)" % (self.e(t[1], env), self.e(t[2], env), self.block(t[3], env, k), self.block(t[4], env, k))
+        if t[0] == "match":
+            return self.match(t, env, k)
         raise Fail("tail %r" % (t,))
 
-    def arms(self, v, arms, env):
+    def match(self, t, env, k):
+        env = dict(env)
+        sc = t[1]
+        if sc[0] == "take":
+            if "self" not in self.threaded:
+                raise Fail("take() on a field of self in a function that does not take &mut self")
+            v = self.fresh("taken")
+            n = self.fresh("self")
+            pre = "let %s := v_field %s %s in\nlet %s := v_set %s (VC \"None\" []) %s in\n" % (v, cstr(sc[1]), env["self"], n, cstr(sc[1]), env["self"])
+            env["self"] = n
+            return "(" + pre + self.arms(v, t[2], env, k) + ")"
+        if sc[0] == "try":
+            r = self.fresh("tried")
+            v = self.fresh("okval")
+            ex = self.fresh("err")
+            pre = "let %s := %s in\n" % (r, self.e(sc[1], env))
+            return ("(" + pre + "match %s with\n| VC \"Err\" [%s] => %s\n| VC \"Ok\" [%s] =>\n%s\n| _ => %s\nend)" % (
+                r, ex, self.ret("(VC \"Err\" [%s])" % ex, env), v, self.arms(v, t[2], env, k), self.stuck(env)))
+        v = self.fresh("scrut")
+        pre = "let %s := %s in\n" % (v, self.e(sc[1], env))
+        return "(" + pre + self.arms(v, t[2], env, k) + ")"
+
+    def arms(self, v, arms, env, k):
         # arms tried in order; the continuation of a failed arm is a thunk bound once
         if not arms:
             return self.stuck(env)
         (pat, body), rest = arms[0], arms[1:]
-        k = self.fresh("next")
-        nxt = self.arms(v, rest, env)
-        inner = self.pat(pat, v, env, lambda env2: self.block(body, env2), "%s tt" % k)
-        return "(let %s := fun _ : unit =>\n%s in\n%s)" % (k, nxt, inner)
+        nk = self.fresh("next")
+        nxt = self.arms(v, rest, env, k)
+        inner = self.pat(pat, v, env, lambda env2: self.block(body, env2, k), "%s tt" % nk)
+        return "(let %s := fun _ : unit =>\n%s in\n%s)" % (nk, nxt, inner)
 
     def pat(self, p, v, env, succ, fail):
         if p[0] == "wild":
@@ -423,6 +585,16 @@ class Gen:
             env = dict(env)
             env[p[1]] = v
             return succ(env)
+        if p[0] == "num":
+            return "(if v_eqb %s (VN %d) then %s else %s)" % (v, p[1], succ(env), fail)
+        if p[0] == "or":
+            # alternatives bind nothing: the body is generated once, behind a thunk
+            b = self.fresh("body")
+            code = "let %s := fun _ : unit =>\n%s in\n" % (b, succ(env))
+            inner = fail
+            for alt in reversed(p[1]):
+                inner = self.pat(alt, v, env, lambda _e: "%s tt" % b, inner)
+            return "(" + code + inner + ")"
         if p[0] == "ctor":
             names = [self.fresh("a") for _ in p[2]]
 
@@ -435,15 +607,21 @@ class Gen:
         raise Fail("pattern %r" % (p,))
 
 
-def translate(src, name, calls):
-    p = Parser(tokenize(find_fn(src, name)))
+def translate(src, name, calls, effects):
+    fn_only = name.split(".")[-1]
+    p = Parser(tokenize(find_fn(src, name)), fn_only)
     fname, params, mutself, body = p.fn()
-    g = Gen(src, calls, mutself)
-    env = {x: x for x in params}
-    text = g.block(body, env)
     cname = "gen_" + name.replace(".", "_")
-    ty = "val * val" if mutself else "val"
-    return "Definition %s %s: %s :=\n%s." % (cname, "".join("(%s : val) " % x for x in params), ty, text)
+    threaded = (["self"] if mutself else []) + [x for x in params if x in effects]
+    g = Gen(src, calls, threaded, fn_only, cname)
+    env = {x: x for x in params}
+    text = g.block(body, env, lambda env2, v: g.ret(v, env2))
+    ty = " * ".join(["val"] * (len(threaded) + 1))
+    ps = "".join("(%s : val) " % x for x in params)
+    if g.recursive:
+        return ("Fixpoint %s (fuel : nat) %s{struct fuel} : %s :=\nmatch fuel with\n| O => %s\n| S fuel_ =>\n%s\nend." % (
+            cname, ps, ty, g.ret("VStuck", env), text))
+    return "Definition %s %s: %s :=\n%s." % (cname, ps, ty, text)
 
 
 HEADER = '''(* GENERATED on every run by tools/rs2sm.py from %s - do not edit.
@@ -456,13 +634,17 @@ Section Gen.
 (* T::new of the generic functions: which value it builds depends on the type parameter, that is,
    on the kind of its `start` argument; the theorems about these definitions quantify over it *)
 Variable t_new : list val -> val.
+(* the functions these call that are not translated here (by name, receiver first): the theorems
+   state what they assume of them *)
+Variable ext : string -> list val -> val.
 '''
 
 if __name__ == "__main__":
-    # arguments: a JSON object {"fns": ["<file>::<Type.fn>", ...], "calls": {"method": "Type.fn"}}
+    # arguments: a JSON object {"fns": ["<file>::<Type.fn>", ...], "calls": {"method": "Type.fn"}, "effects": ["inner"]}
     spec = json.loads(sys.argv[1])
     fns = [a.rsplit("::", 1) for a in spec["fns"]]
     calls = {m: "gen_" + t.replace(".", "_") for m, t in spec.get("calls", {}).items()}
+    effects = spec.get("effects", [])
     out = [HEADER % ", ".join(sorted(set(p for p, _ in fns)))]
     ok = True
     done = set()
@@ -470,7 +652,7 @@ if __name__ == "__main__":
         # a call may only go to a function translated before it
         avail = {m: c for m, c in calls.items() if c in done}
         try:
-            out.append("(* ---- %s :: %s ---- *)\n" % (path, n) + translate(open(path).read(), n, avail))
+            out.append("(* ---- %s :: %s ---- *)\n" % (path, n) + translate(open(path).read(), n, avail, effects))
             done.add("gen_" + n.replace(".", "_"))
         except (Fail, OSError) as ex:
             ok = False
